@@ -764,6 +764,19 @@ class _Simu(_IObserver, _params.Updatable, ABC):
         assert isinstance(value, str)
         if value != "" and not Folder.Exists(value):
             Folder.os.makedirs(value, exist_ok=True)
+        try:
+            previous, listMesh = self.__folder, self.__listMesh
+        except AttributeError:
+            # first assignment, in the constructor
+            pass
+        else:
+            if value != previous:
+                # a loaded simulation refers to its meshes by paths relative to the folder it was saved in:
+                # keep them reachable from anywhere
+                self.__listMesh = [
+                    Folder.Join(previous, mesh) if isinstance(mesh, str) else mesh
+                    for mesh in listMesh
+                ]
         self.__folder = value
 
     @property
@@ -3199,17 +3212,26 @@ class _Simu(_IObserver, _params.Updatable, ABC):
 
         # Save meshes
         folder_meshes = Folder.Join(folder, "Meshes")
+        listMesh = self.__listMesh
         list_mesh = []
-        for i, mesh in enumerate(self.__listMesh):
+        for i, mesh in enumerate(listMesh):
             if isinstance(mesh, str):
                 mesh = Load_Mesh(Folder.Join(folder, mesh))
             path = mesh.Save(folder_meshes, f"mesh{i}")
             list_mesh.append(Folder.os.path.relpath(path, folder))
-        self.__listMesh = list_mesh
 
-        # Save simulation
-        with open(path_simu, "wb") as file:
-            pickle.dump(self, file)
+        # Save simulation: the pickle refers to the meshes by path ...
+        self.__listMesh = list_mesh
+        try:
+            with open(path_simu, "wb") as file:
+                pickle.dump(self, file)
+        finally:
+            # ... while this simulation keeps the mesh objects it has, so that it can still be
+            # saved somewhere else, or moved to another folder, afterwards
+            self.__listMesh = [
+                old if isinstance(old, Mesh) else new
+                for old, new in zip(listMesh, list_mesh)
+            ]
 
         # Save simulation summary
         path_summary = Folder.Join(folder, "summary.txt", mkdir=True)
